@@ -76,8 +76,27 @@ pub fn exec(func: &str, a: &mut Args) -> String {
         "cap2" => { let s = s2::Capsule::new(d2::p(a), d2::p(a), a.f()); o2::op(&s, op, a) }
         "cyl" => { let s = s3::Cylinder::new(a.f(), a.f()); o3::op(&s, op, a) }
         "cone" => { let s = s3::Cone::new(a.f(), a.f()); o3::op(&s, op, a) }
+        "tet" => { let s = s3::Tetrahedron::new(d3::p(a), d3::p(a), d3::p(a), d3::p(a)); tet_op(&s, op, a) }
         _ => "nofn".into(),
     }
+}
+
+/// tetrahedron ops; the documented `unimplemented!()` (interior point, solid = false) is reported as the bare token `panic`
+fn tet_op(s: &crate::p3::shape::Tetrahedron, op: &str, a: &mut Args) -> String {
+    use crate::p3::query::{PointQuery, PointQueryWithLocation};
+    use crate::p3::shape::TetrahedronPointLocation as L;
+    let r = std::panic::catch_unwind(std::panic::AssertUnwindSafe(|| match op {
+        "loc" => { let p = d3::p(a); let so = a.b();
+            let (pp, l) = s.project_local_point_and_get_location(&p, so);
+            let ls = match l { L::OnVertex(i) => format!("V {}", i), L::OnEdge(i, bc) => format!("E {} {} {}", i, ff(bc[0]), ff(bc[1])),
+                               L::OnFace(i, bc) => format!("F {} {} {} {}", i, ff(bc[0]), ff(bc[1]), ff(bc[2])), L::OnSolid => "S".into() };
+            format!("{} {}", o3::fpp(&pp), ls) }
+        "dist" => { let p = d3::p(a); let so = a.b(); ff(s.distance_to_local_point(&p, so)) }
+        "cont" => { let p = d3::p(a); b(s.contains_local_point(&p)).into() }
+        "feat" => { let p = d3::p(a); let (pp, f) = s.project_local_point_and_get_feature(&p); format!("{} {}", o3::fpp(&pp), ffeat3(f)) }
+        _ => "nofn".into(),
+    }));
+    r.unwrap_or_else(|_| "panic".into())
 }
 
 // ------------------------------------------------------------------ generators
@@ -289,6 +308,27 @@ pub fn gen(r: &mut Rng, thorough: bool) -> Vec<(String, String)> {
                 1 => d3::Point::new(u.x * rad * mul(r).abs(), hh * mul(r), u.y * rad * mul(r).abs()),
                 _ => d3::gen_p(r, lat, 3.0 * hh.max(rad)) };
             o.emit3(r, lat, "cone", &sargs, &pc, hh.max(rad), false);
+        }
+        // ---- tetrahedron
+        {
+            let a = d3::gen_p(r, lat, 6.0); let b = d3::gen_p(r, lat, 6.0); let c = d3::gen_p(r, lat, 6.0);
+            let d = if r.below(30) == 0 { a + (b - a) * 0.5 + (c - a) * 0.25 } else { d3::gen_p(r, lat, 6.0) };
+            let (ab, ac, ad) = (b - a, c - a, d - a);
+            let w = [0.0, 0.25, 0.5, 1.0, -0.25, 1.25, 0.125];
+            let p = match mode {
+                0 => { // vertices, edge and face points, points beyond them (one or two zero weights)
+                    let (u, v, t) = (*r.pick(&w), *r.pick(&w), if r.bool() { 0.0 } else { *r.pick(&w) });
+                    a + ab * u + ac * v + ad * t }
+                1 => { // interior (positive barycentrics) — the documented unimplemented!() for solid = false
+                    let (u, v, t) = if lat { (*r.pick(&[0.125, 0.25]), *r.pick(&[0.125, 0.25]), *r.pick(&[0.125, 0.25, 0.375])) }
+                                    else { let u = r.uniform(0.0, 0.5); let v = r.uniform(0.0, 0.5 - u * 0.5); (u, v, r.uniform(0.0, (1.0 - u - v).max(0.0))) };
+                    a + ab * u + ac * v + ad * t }
+                _ => d3::gen_p(r, lat, 12.0) };
+            let sargs = format!("{} {} {} {}", d3::hp(&a), d3::hp(&b), d3::hp(&c), d3::hp(&d));
+            for so in ["0", "1"] { o.v.push(("tet_loc".into(), format!("{} {} {}", sargs, d3::hp(&p), so))); }
+            o.v.push(("tet_cont".into(), format!("{} {}", sargs, d3::hp(&p))));
+            o.v.push(("tet_dist".into(), format!("{} {} {}", sargs, d3::hp(&p), if r.bool() { "1" } else { "0" })));
+            o.v.push(("tet_feat".into(), format!("{} {}", sargs, d3::hp(&p))));
         }
     }
     o.v
